@@ -505,9 +505,9 @@ int muggle_str_tof(const char *str, float *pval)
 		}
 	}
 
-	if (isinf(*pval) && errno == ERANGE)
+	if (errno == ERANGE)
 	{
-		// out of range
+		// out of range: overflow, or underflow (zero / subnormal with lost precision)
 		return 0;
 	}
 
@@ -538,9 +538,9 @@ int muggle_str_tod(const char *str, double *pval)
 		}
 	}
 
-	if (isinf(*pval) && errno == ERANGE)
+	if (errno == ERANGE)
 	{
-		// out of range
+		// out of range: overflow, or underflow (zero / subnormal with lost precision)
 		return 0;
 	}
 
@@ -572,9 +572,9 @@ int muggle_str_told(const char *str, long double *pval)
 		}
 	}
 
-	if (isinf(*pval) && errno == ERANGE)
+	if (errno == ERANGE)
 	{
-		// out of range
+		// out of range: overflow, or underflow (zero / subnormal with lost precision)
 		return 0;
 	}
 
